@@ -1252,12 +1252,17 @@ let rec run b reuse s = function
    | Some s' -> run b reuse s' l'
    | None -> None)
 
-type aux = { amap : (z * nat) list; nxt : nat }
+type aux = { amap : (z * nat) list; nxt : nat; rcnt : (nat -> nat) }
 
 (** val aux0 : aux **)
 
 let aux0 =
-  { amap = []; nxt = (S O) }
+  { amap = []; nxt = (S O); rcnt = (fun _ -> O) }
+
+(** val set_rcnt : aux -> nat -> nat -> aux **)
+
+let set_rcnt x a0 n0 =
+  { amap = x.amap; nxt = x.nxt; rcnt = (upd x.rcnt a0 n0) }
 
 (** val look : (z * nat) list -> z -> nat option **)
 
@@ -1283,14 +1288,17 @@ let bind x z0 n0 =
     (match rlook x.amap n0 with
      | Some _ -> None
      | None ->
-       Some { amap = ((z0, n0) :: x.amap); nxt = (Nat.max x.nxt (S n0)) })
+       Some { amap = ((z0, n0) :: x.amap); nxt = (Nat.max x.nxt (S n0));
+         rcnt = x.rcnt })
 
 (** val choose : aux -> z -> nat * aux **)
 
 let choose x z0 =
   match look x.amap z0 with
   | Some m -> (m, x)
-  | None -> (x.nxt, { amap = ((z0, x.nxt) :: x.amap); nxt = (S x.nxt) })
+  | None ->
+    (x.nxt, { amap = ((z0, x.nxt) :: x.amap); nxt = (S x.nxt); rcnt =
+      x.rcnt })
 
 (** val pc_eqb : pcT -> pcT -> bool **)
 
@@ -1713,6 +1721,40 @@ let accept_ev b sx e =
                                       | _ -> None)
                                    | XO p3 ->
                                      (match p3 with
+                                      | XI p4 ->
+                                        (match p4 with
+                                         | XO p5 ->
+                                           (match p5 with
+                                            | XH ->
+                                              let a0 =
+                                                if (||)
+                                                     (pc_eqb (s.a t).pc XG)
+                                                     (pc_eqb (s.a t).pc XM)
+                                                then t
+                                                else O
+                                              in
+                                              if pc_eqb (s.a a0).pc XG
+                                              then go b s (Some
+                                                     (set_rcnt x a0 (S O)))
+                                                     (zeqn v (s.a a0).li)
+                                                     ((Step (a0, O)) :: [])
+                                                     tt_
+                                              else go b s (Some
+                                                     (set_rcnt x a0 (S
+                                                       (x.rcnt a0))))
+                                                     ((&&)
+                                                       ((&&)
+                                                         (pc_eqb (s.a a0).pc
+                                                           XM)
+                                                         (Nat.ltb (x.rcnt a0)
+                                                           (sub (s.a a0).pend
+                                                             (s.a a0).ppi)))
+                                                       (zeqn v
+                                                         (add (s.a a0).li
+                                                           (x.rcnt a0)))) []
+                                                     tt_
+                                            | _ -> None)
+                                         | _ -> None)
                                       | XO p4 ->
                                         (match p4 with
                                          | XI _ -> None
@@ -1723,7 +1765,7 @@ let accept_ev b sx e =
                                                 (s.a t).retry v
                                             | _ -> None)
                                          | XH -> ev_cas b s x t KPop v)
-                                      | _ -> None)
+                                      | XH -> None)
                                    | XH ->
                                      go b s (Some x)
                                        ((&&) (at_ s t Idle KBulk)
@@ -1888,17 +1930,20 @@ let accept_ev b sx e =
                                            (match p5 with
                                             | XH ->
                                               let a0 =
-                                                if pc_eqb (s.a t).pc XG
+                                                if pc_eqb (s.a t).pc XM
                                                 then t
                                                 else O
                                               in
-                                              if pc_eqb (s.a a0).pc XG
+                                              if pc_eqb (s.a a0).pc XM
                                               then go b s (Some x)
-                                                     (zeqn v
-                                                       (s.heap (s.a a0).lb).used)
-                                                     ((Step (a0,
-                                                     O)) :: ((Step (a0,
-                                                     O)) :: [])) tt_
+                                                     ((&&)
+                                                       (Nat.eqb (x.rcnt a0)
+                                                         (sub (s.a a0).pend
+                                                           (s.a a0).ppi))
+                                                       (zeqn v
+                                                         (s.heap (s.a a0).lb).used))
+                                                     ((Step (a0, O)) :: [])
+                                                     tt_
                                               else go b s (Some x)
                                                      ((&&)
                                                        (pc_eqb (s.a a0).pc
